@@ -484,6 +484,7 @@ kll_sketch<T, C, A> kll_sketch<T, C, A>::deserialize(std::istream& is, const Ser
     if (!is.good()) throw std::runtime_error("error reading from std::istream");
   }
   levels[num_levels] = capacity;
+  check_levels(levels);
   optional<T> tmp; // space to deserialize min and max
   optional<T> min_item;
   optional<T> max_item;
@@ -570,6 +571,7 @@ kll_sketch<T, C, A> kll_sketch<T, C, A>::deserialize(const void* bytes, size_t s
     ptr += copy_from_mem(ptr, levels.data(), sizeof(levels[0]) * num_levels);
   }
   levels[num_levels] = capacity;
+  check_levels(levels);
   optional<T> tmp; // space to deserialize min and max
   optional<T> min_item;
   optional<T> max_item;
@@ -902,6 +904,17 @@ void kll_sketch<T, C, A>::check_family_id(uint8_t family_id) {
   if (family_id != FAMILY) {
     throw std::invalid_argument("Possible corruption: family mismatch: expected "
         + std::to_string(FAMILY) + ", got " + std::to_string(family_id));
+  }
+}
+
+template<typename T, typename C, typename A>
+void kll_sketch<T, C, A>::check_levels(const vector_u32& levels) {
+  // the last entry is the total capacity, offsets must not decrease and must not exceed it
+  for (size_t i = 0; i + 1 < levels.size(); ++i) {
+    if (levels[i] > levels[i + 1]) {
+      throw std::invalid_argument("Possible corruption: level offsets must not decrease or exceed capacity "
+          + std::to_string(levels.back()) + ": level " + std::to_string(i) + " offset " + std::to_string(levels[i]));
+    }
   }
 }
 
